@@ -84,11 +84,11 @@ CHECK_DEADLOCK FALSE
     return total
 
 
-def split_runs(path):
+def split_runs(path, marker='"op":"reset"'):
     runs, cur = [], []
     with open(path) as fh:
         for line in fh:
-            if '"op":"reset"' in line.replace(" ", "") and cur:
+            if marker in line.replace(" ", "") and cur:
                 runs.append(cur)
                 cur = []
             cur.append(line)
@@ -97,7 +97,7 @@ def split_runs(path):
     return runs
 
 
-def validate_trace_file(module, consts, path, wd, tag, invariant=None):
+def validate_trace_file(module, consts, path, wd, tag, invariant=None, reset_marker='"op":"reset"'):
     """Validate one ndjson file with a Trace_* module. Returns (accepted_runs, rejected list)."""
     inv = f"INVARIANT {invariant}\n" if invariant else ""
     cfg = f"""CONSTANTS {consts}
@@ -105,7 +105,7 @@ SPECIFICATION TSpec
 {inv}POSTCONDITION Accepted
 CHECK_DEADLOCK FALSE
 """
-    runs = split_runs(path)
+    runs = split_runs(path, reset_marker)
     rejected = []
     accepted = 0
     cur_path = path
